@@ -40,6 +40,11 @@ def run(pid, tier, seed):
       cfgs.append(dict(c, ste=0, f=[1, -1]))
     else:
       cfgs.append(dict(c, ste=1, f=[1, 0]))
+    # stochastic rounding in the training phase is still a straight-through estimator: same gradient
+    # (tanh / sigmoid clip AFTER the rounding and have no outer straight-through wrapper: whether the top cell is
+    # clipped - gradient 0 - then depends on the random draw, so they are left out of this variant)
+    if c["bits"] <= 3 and c["cls"] in ("bits", "linear", "relu"):
+      cfgs.append(dict(c, ste=1, f=[1, 0], sr=1))
   for cls in ("po2", "relu_po2"):
     for bits in (3, 4, 6):
       for mv in (None, 0, 2, -1):
